@@ -12,7 +12,7 @@ import (
 // C15 / C16 / C17 — cross-component step order, write-cache flushing and accounting.
 func init() {
 	pk := []string{"./pkg/local_object_storage/shard", "./pkg/local_object_storage/writecache"}
-	register(&Check{ID: "C15", Level: "other", Pkgs: pk, Run: runC15})
+	register(&Check{ID: "C15", Level: "other", Pkgs: append([]string{"./pkg/local_object_storage/blobstor/fstree"}, pk...), Run: runC15})
 	register(&Check{ID: "C16", Level: "other", Pkgs: pk, Run: runC16})
 	register(&Check{ID: "C17", Level: "other", Pkgs: pk, Run: runC17})
 }
@@ -36,7 +36,7 @@ func flushOrder(p *core.Prog, r *core.Report, h *core.RuleH) {
 }
 
 func runC15(p *core.Prog, r *core.Report) {
-	r.Explain = "Decides the order of cross-component steps on every CFG path (a stop between two steps leaves only states in which listed objects are readable): Shard.Put indexes the object in the metabase only after the write-cache or the blob storage accepted its bytes; the write-cache removes an object (flushSingle, flushBatch) only after the main storage's Put/PutBatch returned nil; Shard.deleteObjs removes bytes from the blob storage only after the metabase delete that unlists them returned nil, and the write-cache copies of linked children only after it too; Shard.MarkGarbage drops the cached copy only after the metabase mark succeeded. Not covered: enumeration of stop points, torn bbolt commits, and the order write-cache-delete → metabase-delete at the start of deleteObjs (either order has a crash window: the existing one can leave a listed-but-unreadable object for addresses the metabase still reports available, the opposite one can resurrect a removed object through a later flush; recorded in DESIGN.md as an observation, not claimed)."
+	r.Explain = "Decides the order of cross-component steps on every CFG path (a stop between two steps leaves only states in which listed objects are readable): Shard.Put indexes the object in the metabase only after the write-cache or the blob storage accepted its bytes; the write-cache removes an object (flushSingle, flushBatch) only after the main storage's Put/PutBatch returned nil; Shard.deleteObjs removes bytes from the blob storage only after the metabase delete that unlists them returned nil, and the write-cache copies of linked children only after it too; Shard.MarkGarbage drops the cached copy only after the metabase mark succeeded; the data step itself is atomic at the file level: the writers publish the final name only after the complete data write (R6, shared with C12) — otherwise a stop inside the data step leaves a truncated file that a retried put takes for the stored object. Not covered: enumeration of stop points, torn bbolt commits, and the order write-cache-delete → metabase-delete at the start of deleteObjs (either order has a crash window: the existing one can leave a listed-but-unreadable object for addresses the metabase still reports available, the opposite one can resurrect a removed object through a later flush; recorded in DESIGN.md as an observation, not claimed)."
 	r1 := r.Rule("C15.R1", "Shard.Put: metabase PutCounted only after write-cache Put or blob storage Put returned nil", 1)
 	core.CheckEffects(p, r1, core.EffectRule{Fn: shardT + ".Put", Min: 1,
 		Guards:  []core.Guard{core.G("write-cache-put-ok", core.ErrNil, wcI+".Put"), core.G("blobstor-put-ok", core.ErrNil, storI+".Put")},
@@ -96,6 +96,8 @@ func runC15(p *core.Prog, r *core.Report) {
 	r4 := r.Rule("C15.R4", "Shard.MarkGarbage: write-cache Delete only after metabase MarkGarbage returned nil", 1)
 	core.CheckEffects(p, r4, core.EffectRule{Fn: shardT + ".MarkGarbage", Min: 1,
 		Guards: []core.Guard{core.G("metabase-mark-ok", core.ErrNil, mbT+".MarkGarbage")}, Effect: core.CallTo(wcI + ".Delete")})
+	r6 := r.Rule("C15.R6", "the data step itself cannot be caught half-done: every file-tree writer (blob storage and write-cache use it) makes the object visible under its final name only after the complete, successful data write (shared with C12.R1)", 5)
+	publishAfterCompleteWrite(p, r, r6)
 	r5 := r.Rule("C15.R5", "Shard.Put: on a metabase failure the bytes just written are rolled back (write-cache and blob storage delete on the metaErr path) before the error is returned", 1)
 	// the failure return after PutCounted must be preceded by blobStor.Delete (Executed) — must-follow from the failing edge
 	if pfn := p.Func(shardT + ".Put"); pfn != nil {
@@ -160,7 +162,7 @@ func runC16(p *core.Prog, r *core.Report) {
 		// the flush must be the error-reporting one: flush(true)? No: ignoreErrors=true hides read errors; only its presence and result test are required.
 	}
 	// R3
-	r3 := r.Rule("C16.R3", "Shard.fetchObjectData: every return that did not consult the blob storage is justified (write-cache hit / out-of-range, metabase error, metadata says absent)", 3)
+	r3 := r.Rule("C16.R3", "Shard.fetchObjectData: every return that did not consult the blob storage is justified (write-cache hit / out-of-range, metabase error, metadata says absent), and the blob storage is read only after the write-cache was asked (if the shard has one, in every mode)", 5)
 	ffn := p.Func(shardT + ".fetchObjectData")
 	if ffn == nil {
 		r.Fatalf("C16.R3: fetchObjectData not found")
@@ -220,6 +222,20 @@ func runC16(p *core.Prog, r *core.Report) {
 				}
 				return "return", true
 			}, Need: func(string) []string { return []string{"justified-return"} }})
+		// and the other way round: the blob storage (or a 'not found') answers only after the write-cache was asked,
+		// whenever the shard has one — whatever the mode: a degraded shard still accepts puts into the cache
+		asked := core.Guard{Name: "write-cache-asked", Match: wcCall, Comps: []core.Comp{{Result: -1, Kind: core.Executed}}}
+		noWC := core.Guard{Name: "shard-has-no-write-cache", Pure: true, Match: func(s core.Site) bool { return s.Name == shardT+".hasWriteCache" }, Comps: []core.Comp{{Result: -1, Kind: core.IsFalse}}}
+		mbFail := core.Guard{Name: "metabase-failed", Match: func(s core.Site) bool { return s.Name == mbT+".Exists" }, Comps: []core.Comp{{Result: 1, Kind: core.NonNil}}}
+		core.CheckEffectsFn(p, r3, ffn, core.EffectRule{Min: 2, Guards: []core.Guard{asked, noWC, mbFail},
+			Derived: []core.Derived{{Name: "cache-looked-at-first", Alts: [][]string{{"write-cache-asked"}, {"shard-has-no-write-cache"}}}},
+			Need:    func(string) []string { return []string{"cache-looked-at-first"} },
+			Effect: func(_ *core.Prog, in ssa.Instruction) (string, bool) {
+				if c, ok := in.(*ssa.Call); ok && core.ParamIndex(ffn, c.Call.Value) == 3 {
+					return "blob-storage-read", true
+				}
+				return "", false
+			}})
 	}
 	// R4
 	r4 := r.Rule("C16.R4", "flushWorker: modeMtx.RLock is released on every path, and flushing happens between RLock and RUnlock under readOnly()==false", 2)
